@@ -1018,4 +1018,6 @@ SELFTESTS = [
     (rule_exit_status, ["c07_main_bad.cc"], ["c07_main_good.cc"], "abort()"),
     (rule_reading_loops, ["c07_loop_bad.cc"], ["c07_loop_good.cc"], "scan"),
     (rule_alloc_taint, ["c07_loop_bad.cc"], ["c07_loop_good.cc"], "resize"),
+    (rule_diagnosed_failures, ["c07_diag_bad.cc"], ["c07_diag_good.cc"], "Cmd::invoke"),
+    (rule_divisors, ["c07_diag_bad.cc"], ["c07_diag_good.cc"], "read_block"),
 ]
